@@ -12,6 +12,7 @@ import (
 	"go/ast"
 	"go/format"
 	"go/parser"
+	"go/printer"
 	"go/token"
 	"go/types"
 	"os"
@@ -472,6 +473,154 @@ func condvar(file *ast.File) int {
 	return n
 }
 
+// terminates reports whether a statement list always leaves the enclosing list
+// (return, branch statement or a call of panic as the last statement).
+func terminates(list []ast.Stmt) bool {
+	if len(list) == 0 {
+		return false
+	}
+	switch v := list[len(list)-1].(type) {
+	case *ast.ReturnStmt:
+		return true
+	case *ast.BranchStmt:
+		return v.Tok != token.FALLTHROUGH
+	case *ast.ExprStmt:
+		if c, ok := v.X.(*ast.CallExpr); ok {
+			if id, ok := c.Fun.(*ast.Ident); ok && id.Name == "panic" {
+				return true
+			}
+		}
+	}
+	return false
+}
+
+func declares(list []ast.Stmt) bool {
+	for _, st := range list {
+		switch v := st.(type) {
+		case *ast.DeclStmt, *ast.LabeledStmt:
+			return true
+		case *ast.AssignStmt:
+			if v.Tok == token.DEFINE {
+				return true
+			}
+		case *ast.BranchStmt:
+			if v.Tok == token.FALLTHROUGH {
+				return true
+			}
+		}
+	}
+	return false
+}
+
+func mapLists(file *ast.File, conv func([]ast.Stmt) []ast.Stmt) {
+	ast.Inspect(file, func(x ast.Node) bool {
+		switch v := x.(type) {
+		case *ast.BlockStmt:
+			if len(v.List) > 0 {
+				switch v.List[0].(type) {
+				case *ast.CaseClause, *ast.CommClause:
+					return true
+				}
+			}
+			v.List = conv(v.List)
+		case *ast.CaseClause:
+			v.Body = conv(v.Body)
+		case *ast.CommClause:
+			v.Body = conv(v.Body)
+		}
+		return true
+	})
+}
+
+// elsestrip rewrites `if c { …; return } else { B }` into `if c { …; return }; B`
+// when B declares nothing at its top level.
+func elsestrip(file *ast.File) int {
+	n := 0
+	mapLists(file, func(list []ast.Stmt) []ast.Stmt {
+		var out []ast.Stmt
+		for _, st := range list {
+			is, ok := st.(*ast.IfStmt)
+			if ok && is.Init == nil {
+				if eb, ok := is.Else.(*ast.BlockStmt); ok && terminates(is.Body.List) && !declares(eb.List) {
+					is.Else = nil
+					out = append(out, is)
+					out = append(out, eb.List...)
+					n++
+					continue
+				}
+			}
+			out = append(out, st)
+		}
+		return out
+	})
+	return n
+}
+
+// elseadd rewrites `if c { …; return }; rest…` into `if c { …; return } else { rest… }`.
+func elseadd(file *ast.File) int {
+	n := 0
+	hasLabel := func(list []ast.Stmt) bool {
+		found := false
+		for _, st := range list {
+			ast.Inspect(st, func(x ast.Node) bool {
+				switch v := x.(type) {
+				case *ast.LabeledStmt:
+					found = true
+				case *ast.BranchStmt:
+					if v.Tok == token.FALLTHROUGH {
+						found = true
+					}
+				case *ast.FuncLit:
+					return false
+				}
+				return !found
+			})
+		}
+		return found
+	}
+	mapLists(file, func(list []ast.Stmt) []ast.Stmt {
+		for i, st := range list {
+			is, ok := st.(*ast.IfStmt)
+			if !ok || is.Init != nil || is.Else != nil || !terminates(is.Body.List) || i == len(list)-1 {
+				continue
+			}
+			rest := list[i+1:]
+			if hasLabel(rest) {
+				continue
+			}
+			is.Else = &ast.BlockStmt{List: append([]ast.Stmt(nil), rest...)}
+			n++
+			return append(list[:i:i], is)
+		}
+		return list
+	})
+	return n
+}
+
+// nop inserts the statement `_ = 0` in front of every statement of every
+// statement list (statement positions and adjacency change, behaviour does not).
+func nop(file *ast.File) int {
+	n := 0
+	mapLists(file, func(list []ast.Stmt) []ast.Stmt {
+		var out []ast.Stmt
+		for _, st := range list {
+			if as, ok := st.(*ast.AssignStmt); ok && len(as.Lhs) == 1 {
+				if id, ok := as.Lhs[0].(*ast.Ident); ok && id.Name == "_" {
+					if bl, ok := as.Rhs[0].(*ast.BasicLit); ok && bl.Value == "0" {
+						out = append(out, st)
+						continue
+					}
+				}
+			}
+			out = append(out, &ast.AssignStmt{Lhs: []ast.Expr{&ast.Ident{Name: "_", NamePos: st.Pos()}}, TokPos: st.Pos(), Tok: token.ASSIGN, Rhs: []ast.Expr{&ast.BasicLit{Kind: token.INT, Value: "0", ValuePos: st.Pos()}}})
+			out = append(out, st)
+			n++
+		}
+		return out
+	})
+	return n
+}
+
 func main() {
 	dir := os.Args[1]
 	mode := "rename"
@@ -490,7 +639,7 @@ func main() {
 		for i, file := range pk.Syntax {
 			path := pk.CompiledGoFiles[i]
 			changed := false
-			if mode == "flip" || mode == "switch" || mode == "hoist" || mode == "fold" || mode == "incdec" || mode == "condvar" || mode == "unswitch" {
+			if mode == "flip" || mode == "switch" || mode == "hoist" || mode == "fold" || mode == "incdec" || mode == "condvar" || mode == "unswitch" || mode == "elsestrip" || mode == "elseadd" || mode == "nop" {
 				k := 0
 				switch mode {
 				case "flip":
@@ -505,6 +654,12 @@ func main() {
 					k = incdec(file)
 				case "condvar":
 					k = condvar(file)
+				case "elsestrip":
+					k = elsestrip(file)
+				case "elseadd":
+					k = elseadd(file)
+				case "nop":
+					k = nop(file)
 				default:
 					k = hoist(file, pk.TypesInfo)
 				}
@@ -513,6 +668,9 @@ func main() {
 					var buf bytes.Buffer
 					if err := format.Node(&buf, pk.Fset, file); err != nil {
 						fmt.Fprintln(os.Stderr, path, err)
+						if os.Getenv("RENAMER_DEBUG") != "" {
+							printer.Fprint(os.Stderr, pk.Fset, file)
+						}
 						os.Exit(2)
 					}
 					if err := os.WriteFile(path, buf.Bytes(), 0o644); err != nil {
